@@ -598,6 +598,14 @@ pub fn gen_c19(rng: &mut Rng) -> Value {
     let mut steps = Vec::new();
     steps.push(json!({"k":"env","act":"write_file","path":"$T/t0","val":0}));
     steps.push(json!({"k":"env","act":"write_file","path":"$T/sub/t1","val":1}));
+    // a second file with the same bytes as t0: both link to one content address
+    steps.push(json!({"k":"env","act":"write_file","path":"$T/twin","val":0}));
+    let twin_first = rng.chance(1, 4);
+    if twin_first {
+        let mut l = json!({"k":"api","op":"link_to","entry":"fn","key":1,"target":"$T/twin"});
+        set_flav(&mut l, flav(rng));
+        steps.push(l);
+    }
     // the address may already exist as regular content
     if rng.chance(1, 5) {
         let mut w = json!({"k":"api","op":"write","entry":"write","val":0});
@@ -693,6 +701,14 @@ pub fn gen_c19(rng: &mut Rng) -> Value {
         steps.push(json!({"k":"audit","bin":f.0,"mode":f.1,"what":["read","reader","read_hash"]}));
     }
     steps.push(json!({"k":"chdir","path":"$R"}));
+    // the first target is gone (its link dangles); the same bytes are linked again from the twin file
+    if !twin_first && rng.chance(1, 5) {
+        steps.push(json!({"k":"env","act":"delete","path":"$T/t0"}));
+        let mut l = json!({"k":"api","op":"link_to","entry":*rng.pick(&["fn","open"]),"key":1,"target":"$T/twin"});
+        set_flav(&mut l, flav(rng));
+        steps.push(l);
+        steps.extend(all_flav_audit(&["metadata", "read", "read_hash"]));
+    }
     scenario("C19", keys, vals, steps, rng)
 }
 
